@@ -106,7 +106,16 @@ def run_case(cs):
                 if a != "failed":
                     w.setdefault(f, dg)
     before = snap.snap(root)
-    r = drive.run("flatten", [root, dest] + (["-v"] if rng.random() < 0.3 else []))
+    fopts = []
+    if rng.random() < 0.3:
+        fopts.append("-v")
+    if rng.random() < 0.2:
+        fopts.append("-n")
+    if rng.random() < 0.2:
+        fopts += ["--author_name", world.gen_name(rng, rng.choice(["plain", "uni", "xml"]), ext=False), "--comment", "flattened " + world.gen_name(rng, "space", ext=False)]
+    if rng.random() < 0.15:
+        fopts += ["-i", "*.unrelated"]
+    r = drive.run("flatten", [root, dest] + fopts)
     after = snap.snap(root)
     cs.evaluated()
     cs.count("flatten_judged")
